@@ -438,4 +438,346 @@ def reconcile (m : Mode) : P :=
         | _ => onError rv
     | _ => .ret .error
 
+/-! ### the name generator's availability loop (internal/names/generate.go)
+
+`nameGenerator.GenerateName` draws up to `maxTries` candidates from the API server's name
+generator (`fresh`: random suffixes, an input) and probes each with a Get through the client it was
+built with — the CACHED one (`names.NewNameGenerator(cached)`): NotFound ⇒ the candidate becomes
+the name; found ⇒ next candidate; any other error ⇒ give up with that error; every try found ⇒
+`errGenerateName`. `reconcile` above is the instance with ONE try (`reconcileT_one`, Props):
+there a found candidate ends the generation. `reconcileT tries` is what the driver runs with
+`tries = maxTries` (= `maxTries := 10` of the source: `skeleton_generate_name`), and what the
+`…_retry` theorems speak about for EVERY number of tries. -/
+
+/-- `maxTries` of the name generator: at most this many availability probes per generated name -/
+def maxTries : Nat := 10
+
+/-- how a name generation ended -/
+inductive Probed where
+  | name (n : String)   -- the candidate the cache does not know
+  | gaveUp              -- every try found an object (errGenerateName), or the model ran out of candidates
+  | failed              -- a probe failed with another error
+  deriving DecidableEq, Repr, Inhabited
+
+/-- `nameGenerator.GenerateName` for a resource of kind `kind` without a name: the loop body is
+`name := namer.GenerateName(..); err := reader.Get(name); IsNotFound ⇒ SetName, return; err ⇒ return err`.
+The continuation receives the outcome and the candidates not drawn yet. -/
+def probeName (kind : String) : Nat → List String → (Probed → List String → P) → P
+  | 0, fresh, k => k .gaveUp fresh
+  | _ + 1, [], k => k .gaveUp []
+  | t + 1, n :: rest, k => .call (.getCached kind n) fun
+    | .notFound => k (.name n) rest
+    | .found _ => probeName kind t rest k
+    | _ => k .failed rest
+
+/-- the render loop of the function composer with the generator's retry loop: a generation that
+does not end in a name aborts the composition -/
+def renderFnT (tries : Nat) (lrv : Nat) (obs : Obs) : List Desired → List String → List Named → (List Named → P) → P
+  | [], _, acc, k => k acc.reverse
+  | d :: ds, fresh, acc, k =>
+    match obsLookup obs d.rname with
+    | some o => renderFnT tries lrv obs ds fresh (⟨d, o.name, false⟩ :: acc) k
+    | none => probeName d.kind tries fresh fun
+      | .name n, rest => renderFnT tries lrv obs ds rest (⟨d, n, true⟩ :: acc) k
+      | _, _ => onError lrv
+
+/-- FunctionComposer.Compose (+ tail of Reconcile) with the generator's retry loop -/
+def composeFnT (tries : Nat) (lrv : Nat) (refs : List Ref) (out : Obs → FnOut) (ch : Choices) : P :=
+  observeFn lrv refs [] fun obs =>
+  match out obs with
+  | .failed => onError lrv
+  | .desired ds =>
+    renderFnT tries lrv obs ds ch.fresh [] fun named =>
+    let undesired := (obs.filter fun p => !(ds.any (·.rname = p.1))).map (·.2)
+    gcFn lrv (ch.gcOrder undesired) <|
+    wcall lrv (.patchRefs ch.ver (refsOf named)) fun _ =>
+    applyFn lrv (ch.applyOrder named) true fun synced =>
+    .call .statusPatch fun
+      | .okRv rv => finish rv synced
+      | .conflict => onConflict
+      | _ => onErrorO none
+
+/-- the render loop of the P&T composer with the generator's retry loop: a generation that does
+not end in a name leaves the template unrendered (and does not abort) -/
+def renderPTT (tries : Nat) (lrv : Nat) (a : Assoc) : List Desired → List String → List Rendered → (List Rendered → P) → P
+  | [], _, acc, k => k acc.reverse
+  | d :: ds, fresh, acc, k =>
+    match assocLookup a d.rname with
+    | some r =>
+      if r.kind = d.kind then renderPTT tries lrv a ds fresh (⟨d, r.name, true⟩ :: acc) k else onError lrv
+    | none => probeName d.kind tries fresh fun
+      | .name n, rest => renderPTT tries lrv a ds rest (⟨d, n, true⟩ :: acc) k
+      | _, rest => renderPTT tries lrv a ds rest (⟨d, "", false⟩ :: acc) k
+
+/-- PTComposer.Compose (+ tail of Reconcile) with the generator's retry loop -/
+def composePTT (tries : Nat) (lrv : Nat) (refs : List Ref) (tmpl : List Desired) (fresh : List String) (ver : String := "v1") : P :=
+  associatePT lrv tmpl refs [] fun a =>
+  renderPTT tries lrv a tmpl fresh [] fun rs =>
+  wcall lrv (.updateXR lrv ver (rs.map rkey)) fun rsp =>
+  let lrv' := match rsp with | .okRv rv => rv | _ => lrv
+  applyPT lrv' rs true fun synced =>
+  .call .getXR fun
+    | .xr _ _ _ => wcall lrv' .patchXR fun _ => finish lrv' synced
+    | _ => onError lrv'
+
+/-- `Reconciler.Reconcile` after its first read of the XR answered `x` -/
+def recContT (tries : Nat) (m : Mode) : Resp → P
+  | .xr fin rv refs =>
+    let body (lrv : Nat) : P := match m with
+      | .fn out ch => composeFnT tries lrv refs out ch
+      | .pt tmpl fresh ver => composePTT tries lrv refs tmpl fresh ver
+    if fin then body rv
+    else .call (.addFinalizer rv) fun
+      | .okRv rv' => body rv'
+      | .conflict => onConflict
+      | _ => onError rv
+  | _ => .ret .error
+
+/-- Reconciler.Reconcile for a live, unpaused XR, the name generator trying `tries` candidates -/
+def reconcileT (tries : Nat) (m : Mode) : P := .call .getXR (recContT tries m)
+
+/-- A reconcile whose first read of the XR (`r.client.Get`, the cached client) is served by a
+LAGGING informer cache: the read is issued, but what the reconciler sees is an earlier version
+(`fin`, `rv`, `refs`) of the XR; every later read and all writes see the store (the informer
+catches up while the reconcile runs). -/
+def reconcileStaleT (tries : Nat) (m : Mode) (fin : Bool) (rv : Nat) (refs : List Ref) : P :=
+  .call .getXR fun
+    | .xr _ _ _ => recContT tries m (.xr fin rv refs)
+    | x => recContT tries m x
+
+/-! ### call skeletons
+
+For every Go function mirrored above: the ordered list of its property-relevant calls as the
+model reads them, one entry per call of the source, with the model step that mirrors it (or
+"not modelled: why"). `Xp.Gen.c01Skel*` (lean/Xp/Gen/C01Skel.lean) is the same list extracted
+with go/ast from the CURRENT tree on every run (harness/main/c01_dump.go); Props/C01.lean
+states their equality (`skeleton_*`), so a call inserted, removed or moved in one of these
+functions breaks an obligation before any scenario runs. -/
+
+/-- reconciler.go `Reconciler.Reconcile` ↦ `reconcile` -/
+def skelReconcile : List String :=
+  ["client.Get",                              -- .getXR (error ⇒ return: `.ret .error`)
+   "meta.IsPaused", "client.Status.Update",   -- not modelled: the XR of the XR world is never paused
+   "meta.WasDeleted",                         -- not modelled: the XR is live (deletion is C08's)
+   "composite.UnpublishConnection", "client.Status.Update",
+   "composite.RemoveFinalizer", "kerrors.IsConflict", "client.Status.Update",
+   "client.Status.Update",
+   "composite.AddFinalizer",                  -- .addFinalizer, issued only when the finalizer is absent (`fin`)
+   "kerrors.IsConflict",                      -- … conflict ⇒ onConflict
+   "client.Status.Update",                    -- … other error ⇒ onError
+   "composite.SelectComposition", "client.Status.Update",  -- not modelled: composition fixed (harness stub: no API call, no error)
+   "revision.Fetch", "client.Status.Update",               -- not modelled: the revision is an input (`Mode`)
+   "revision.Validate", "client.Status.Update",            -- not modelled: revisions of the XR world are valid
+   "composite.Configure", "kerrors.IsConflict", "client.Status.Update",  -- not modelled: XR already configured (name-prefix label present)
+   "resource.Compose",                        -- composeFn / composePT
+   "kerrors.IsConflict",                      -- wcall: conflict ⇒ onConflict (no status write)
+   "kerrors.IsInvalid",                       -- message only, no call
+   "handleCommonCompositionResult",           -- no API call (no claim reference): skelHandleResult
+   "client.Status.Update",                    -- onError / onErrorO
+   "engine.StartWatches",                     -- not modelled: no-op engine, no API call
+   "composite.PublishConnection", "kerrors.IsConflict", "client.Status.Update",  -- not modelled: no connection secret (C09's world)
+   "handleCommonCompositionResult",
+   "updateXRConditions",                      -- `synced` of `finish`
+   "client.Status.Update",                    -- finish (unsynced/unready: immediate requeue)
+   "client.Status.Update"]                    -- finish
+
+/-- reconciler.go `handleCommonCompositionResult`: `getClaimFromXR` Gets the claim only when the XR
+has a claim reference — not modelled: the XR of the XR world has none, no API call -/
+def skelHandleResult : List String := ["getClaimFromXR", "xr.SetConditions", "xr.SetClaimConditionTypes"]
+
+/-- composition_functions.go `FunctionComposer.Compose` ↦ `composeFn` -/
+def skelFnCompose : List String :=
+  ["composite.ObserveComposedResources",      -- observeFn
+   "composite.FetchConnection",               -- not modelled: the XR has no connection secret, no API call
+   "AsState",
+   "client.Get",                              -- not modelled: pipeline steps carry no credentials
+   "pipeline.RunFunction",                    -- `out obs` (.failed ⇒ onError)
+   "FromStruct",
+   "cd.SetNamespace", "cd.SetName",           -- renderFn: the observed resource's name is inherited
+   "RenderComposedResourceMetadata",          -- annotation / controller carried by `.apply` (skelRenderMeta)
+   "composite.GenerateName",                  -- renderFn: probeName
+   "composite.GarbageCollectComposedResources", -- gcFn
+   "refs.SetName",
+   "UpdateResourceRefs",                      -- refsOf
+   "client.Patch",                            -- .patchRefs  (BEFORE the apply loop, AFTER the garbage collection)
+   "composite.ManagedFieldsUpgrader.Upgrade", -- not modelled: managed-fields migration (no patch when the SSA manager is present)
+   "client.Patch",                            -- applyFn: .apply
+   "kerrors.IsInvalid",                       -- … .invalid ⇒ unsynced, continue
+   "FromStruct", "xr.SetName", "removeSystemConditions",
+   "client.Status.Patch"]                     -- .statusPatch
+
+/-- `ExistingComposedResourceObserver.ObserveComposedResources` ↦ `observeFn` -/
+def skelObserve : List String :=
+  ["cached.Get",                  -- .getCached
+   "kerrors.IsNotFound",
+   "uncached.Get",                -- .getObj
+   "kerrors.IsNotFound",          -- … skip the reference
+   "metav1.GetControllerOf",      -- ctrl = .other ⇒ skip
+   "GetCompositionResourceName",  -- annot = "" ⇒ error
+   "details.FetchConnection"]     -- not modelled: no connection secret
+
+/-- `DeletingComposedResourceGarbageCollector.GarbageCollectComposedResources` ↦ `gcFn` -/
+def skelGC : List String :=
+  ["metav1.GetControllerOf",      -- not modelled: foreign controller ⇒ error; unreachable, observeFn never records a foreign object
+   "meta.RemoveLabels",
+   "client.Update",               -- .gcUpdate
+   "resource.IgnoreNotFound",
+   "client.Delete",               -- .delete
+   "resource.IgnoreNotFound"]
+
+/-- `UpdateResourceRefs` ↦ `refsOf` (sorted by `refLt`: skelRefsSortLess) -/
+def skelUpdateRefs : List String := ["meta.ReferenceTo", "sort.Slice", "xr.SetResourceReferences"]
+
+/-- the `less` of UpdateResourceRefs; `refLt` compares kind ++ name: all references of one
+reconcile carry the same API version, and within one group ("KA2" = Kind KA of a group that sorts first) -/
+def skelRefsSortLess : String := "ri.APIVersion+ri.Kind+ri.Name < rj.APIVersion+rj.Kind+rj.Name"
+
+/-- `PatchingManagedFieldsUpgrader.Upgrade`: not modelled (objects of the XR world carry the SSA
+manager or are created by it); tied so that a new write in it is noticed -/
+def skelUpgrade : List String :=
+  ["meta.WasCreated", "obj.GetManagedFields", "resource.IgnoreNotFound", "client.Patch", "resource.IgnoreNotFound", "client.Patch"]
+
+/-- composition_pt.go `PTComposer.Compose` ↦ `composePT` -/
+def skelPTCompose : List String :=
+  ["ComposedTemplates",                 -- not modelled: no patch sets
+   "composition.AssociateTemplates",    -- associatePT
+   "RenderFromJSON",                    -- renderPT: kind of the reference = kind of the template, else error
+   "RenderFromCompositePatches",        -- not modelled: templates without patches (C10's)
+   "RenderComposedResourceMetadata",    -- annotation / controller carried by `.create` / `.mergePatch`
+   "composed.GenerateName",             -- renderPT: probeName (failure ⇒ unrendered, no abort)
+   "meta.ReferenceTo",                  -- rkey
+   "xr.SetResourceReferences",
+   "client.Update",                     -- .updateXR (BEFORE the apply loop)
+   "resource.MustBeControllableBy",     -- applyPT: ctrl = .other ⇒ error
+   "usage.RespectOwnerRefs",            -- not modelled: no Usage among the composed kinds
+   "client.Apply",                      -- applyPT: .getCached ; .create | .mergePatch
+   "kerrors.IsInvalid",                 -- … .invalid ⇒ unsynced, continue
+   "RenderToCompositePatches",          -- not modelled: no patches
+   "composed.FetchConnection", "composed.ExtractConnection",  -- not modelled: no connection secret
+   "composed.IsReady",                  -- no API call
+   "xr.DeepCopy",
+   "client.Apply"]                      -- .getXR ; .patchXR
+
+/-- `GarbageCollectingAssociator.AssociateTemplates` ↦ `associatePT` -/
+def skelAssociate : List String :=
+  ["AssociateByOrder",              -- not modelled: anonymous templates
+   "cached.Get",                    -- .getCached
+   "kerrors.IsNotFound",
+   "uncached.Get",                  -- .getObj
+   "kerrors.IsNotFound",
+   "GetCompositionResourceName",
+   "AssociateByOrder",              -- not modelled: unannotated referenced resource (the model errors)
+   "metav1.GetControllerOf",        -- ctrl = .other ⇒ error
+   "meta.RemoveLabels",
+   "cached.Update",                 -- .gcUpdate
+   "resource.IgnoreNotFound",
+   "cached.Delete",                 -- .delete
+   "resource.IgnoreNotFound"]
+
+/-- composition_render.go `RenderComposedResourceMetadata`: what `.apply` / `.create` / `.mergePatch`
+write besides the content (annot := resource name, ctrl := .xr); generateName feeds the name generator -/
+def skelRenderMeta : List String :=
+  ["cd.SetGenerateName", "SetCompositionResourceName", "meta.AddLabels", "meta.AsController", "meta.TypedReferenceTo",
+   "meta.AddControllerReference"]
+
+/-- composition_render.go `RenderFromJSON`: keeps the referenced name, refuses a changed kind -/
+def skelRenderFromJSON : List String :=
+  ["o.GetName", "o.GetNamespace", "json.Unmarshal", "o.SetName", "o.SetNamespace", "gvk.Empty"]
+
+/-- internal/names/generate.go `nameGenerator.GenerateName` ↦ `probeName` -/
+def skelGenerateName : List String :=
+  ["cd.GetName", "cd.GetGenerateName",   -- named already ⇒ nothing (renderFn/renderPT: inherited name, no probe)
+   "namer.GenerateName",                 -- next candidate of `fresh`
+   "cd.GetGenerateName",
+   "reader.Get",                         -- .getCached (the generator is built on the cached client)
+   "kerrors.IsNotFound",                 -- available ⇒
+   "cd.SetName"]                         -- … the candidate becomes the name; found ⇒ next try; other error ⇒ give up
+
+/-! ### the skeletons as annotated by the model
+
+The per-entry comments above, as data: for every entry of a declared skeleton, the API calls
+(`reqVerb` of the model's requests) the mirroring model step issues on the designated full path of
+the model — the run in which every loop is entered exactly once (one reference that is missing from
+the cache and undesired, one desired resource that needs a name, a missing finalizer). Callee
+skeletons are inlined at their call sites (`stepsOf`). Props/C01.lean proves that the first
+components ARE the declared skeletons and that the concatenated annotations ARE the requests the
+model applies on that path (`model_path_matches_skeleton_fn/_pt`): an entry annotated with a call
+the model does not issue there, or a model call no entry accounts for, breaks the obligation. -/
+
+/-- the client call a model request stands for -/
+def reqVerb : Req → String
+  | .getXR | .getObj _ _ | .getCached _ _ => "Get"
+  | .addFinalizer _ | .gcUpdate _ _ | .updateXR _ _ _ => "Update"
+  | .delete _ _ => "Delete"
+  | .patchRefs _ _ | .apply _ _ _ _ | .mergePatch _ _ _ _ | .patchXR => "Patch"
+  | .create _ _ _ _ => "Create"
+  | .statusPatch => "Status.Patch"
+  | .statusUpdate _ => "Status.Update"
+
+abbrev Annot := List (String × List String)
+
+def stepsOf (a : Annot) : List String := a.flatMap (·.2)
+
+def skelObserveA : Annot :=
+  [("cached.Get", ["Get"]), ("kerrors.IsNotFound", []), ("uncached.Get", ["Get"]), ("kerrors.IsNotFound", []),
+   ("metav1.GetControllerOf", []), ("GetCompositionResourceName", []), ("details.FetchConnection", [])]
+
+def skelGCA : Annot :=
+  [("metav1.GetControllerOf", []), ("meta.RemoveLabels", []), ("client.Update", ["Update"]), ("resource.IgnoreNotFound", []),
+   ("client.Delete", ["Delete"]), ("resource.IgnoreNotFound", [])]
+
+def skelGenerateNameA : Annot :=
+  [("cd.GetName", []), ("cd.GetGenerateName", []), ("namer.GenerateName", []), ("cd.GetGenerateName", []),
+   ("reader.Get", ["Get"]), ("kerrors.IsNotFound", []), ("cd.SetName", [])]
+
+def skelFnComposeA : Annot :=
+  [("composite.ObserveComposedResources", stepsOf skelObserveA), ("composite.FetchConnection", []), ("AsState", []),
+   ("client.Get", []), ("pipeline.RunFunction", []), ("FromStruct", []), ("cd.SetNamespace", []), ("cd.SetName", []),
+   ("RenderComposedResourceMetadata", []), ("composite.GenerateName", stepsOf skelGenerateNameA),
+   ("composite.GarbageCollectComposedResources", stepsOf skelGCA), ("refs.SetName", []), ("UpdateResourceRefs", []),
+   ("client.Patch", ["Patch"]), ("composite.ManagedFieldsUpgrader.Upgrade", []), ("client.Patch", ["Patch"]),
+   ("kerrors.IsInvalid", []), ("FromStruct", []), ("xr.SetName", []), ("removeSystemConditions", []),
+   ("client.Status.Patch", ["Status.Patch"])]
+
+def skelAssociateA : Annot :=
+  [("AssociateByOrder", []), ("cached.Get", ["Get"]), ("kerrors.IsNotFound", []), ("uncached.Get", ["Get"]),
+   ("kerrors.IsNotFound", []), ("GetCompositionResourceName", []), ("AssociateByOrder", []), ("metav1.GetControllerOf", []),
+   ("meta.RemoveLabels", []), ("cached.Update", ["Update"]), ("resource.IgnoreNotFound", []), ("cached.Delete", ["Delete"]),
+   ("resource.IgnoreNotFound", [])]
+
+def skelPTComposeA : Annot :=
+  [("ComposedTemplates", []), ("composition.AssociateTemplates", stepsOf skelAssociateA), ("RenderFromJSON", []),
+   ("RenderFromCompositePatches", []), ("RenderComposedResourceMetadata", []),
+   ("composed.GenerateName", stepsOf skelGenerateNameA), ("meta.ReferenceTo", []), ("xr.SetResourceReferences", []),
+   ("client.Update", ["Update"]), ("resource.MustBeControllableBy", []), ("usage.RespectOwnerRefs", []),
+   ("client.Apply", ["Get", "Create"]),      -- crossplane-runtime APIPatchingApplicator: Get; NotFound ⇒ Create
+   ("kerrors.IsInvalid", []), ("RenderToCompositePatches", []), ("composed.FetchConnection", []),
+   ("composed.ExtractConnection", []), ("composed.IsReady", []), ("xr.DeepCopy", []),
+   ("client.Apply", ["Get", "Patch"])]       -- … found ⇒ merge Patch (the XR)
+
+/-- Reconciler.Reconcile, `compose` being the calls of the composer on the path -/
+def skelReconcileA (compose : List String) : Annot :=
+  [("client.Get", ["Get"]), ("meta.IsPaused", []), ("client.Status.Update", []), ("meta.WasDeleted", []),
+   ("composite.UnpublishConnection", []), ("client.Status.Update", []), ("composite.RemoveFinalizer", []),
+   ("kerrors.IsConflict", []), ("client.Status.Update", []), ("client.Status.Update", []),
+   ("composite.AddFinalizer", ["Update"]),   -- crossplane-runtime APIFinalizer: Update when the finalizer is absent
+   ("kerrors.IsConflict", []), ("client.Status.Update", []), ("composite.SelectComposition", []),
+   ("client.Status.Update", []), ("revision.Fetch", []), ("client.Status.Update", []), ("revision.Validate", []),
+   ("client.Status.Update", []), ("composite.Configure", []), ("kerrors.IsConflict", []), ("client.Status.Update", []),
+   ("resource.Compose", compose), ("kerrors.IsConflict", []), ("kerrors.IsInvalid", []),
+   ("handleCommonCompositionResult", []), ("client.Status.Update", []), ("engine.StartWatches", []),
+   ("composite.PublishConnection", []), ("kerrors.IsConflict", []), ("client.Status.Update", []),
+   ("handleCommonCompositionResult", []), ("updateXRConditions", []), ("client.Status.Update", []),
+   ("client.Status.Update", ["Status.Update"])]
+
+/-- the designated path: no finalizer yet; one reference, to a resource "z" that is missing from the
+cache and no longer desired; one desired resource that needs a name -/
+def pathStore (kind : String) : St :=
+  { xrFin := false, xrRv := 1, refs := [⟨kind, "xr-old"⟩],
+    objs := [⟨kind, "xr-old", "z", .xr, false, false, 0, true⟩], miss := [⟨kind, "xr-old"⟩] }
+
+def pathModeFn : Mode := .fn (fun _ => .desired [⟨"c", "KA", 0, true⟩]) ⟨"v1", ["xr-new"], id, id⟩
+
+def pathModePT : Mode := .pt [⟨"a", "KA", 1, true⟩] ["xr-new"] "v1"
+
 end Xp.C01
